@@ -204,6 +204,27 @@ func runC16(c *rt.Ctx) {
 	}
 
 	fs := c16Formatters()
+	// the exported Formatter variables are entry points of their own
+	fs = append(fs,
+		c16Formatter{name: "date.Formatter", nValues: len(c16Dates), nFlags: 2, alphabet: []string{"0123456789", "-"},
+			call:     func(buf []byte, vi, flag int) ([]byte, error) { return date.Formatter(buf, c16Dates[vi], date.Format(flag)) },
+			describe: func(vi, flag int) string { return fmt.Sprintf("date.Formatter value %d format=%d", vi, flag) }},
+		c16Formatter{name: "roman.Formatter", nValues: len(c16Romans), nFlags: 128, alphabet: []string{"IVXLCDM", "mix:"},
+			call: func(buf []byte, vi, flag int) ([]byte, error) {
+				f, _ := romanFlags(flag)
+				return roman.Formatter(buf, c16Romans[vi], f)
+			},
+			describe: func(vi, flag int) string { return fmt.Sprintf("roman.Formatter %d flags=%d", c16Romans[vi], flag) }},
+		c16Formatter{name: "sem.Formatter", nValues: len(c16Sems), nFlags: 2, alphabet: []string{"v", "1.0.0-"},
+			call:     func(buf []byte, vi, flag int) ([]byte, error) { return sem.Formatter(buf, c16Sems[vi], sem.Format(flag)) },
+			describe: func(vi, flag int) string { return fmt.Sprintf("sem.Formatter %+v format=%d", c16Sems[vi], flag) }},
+		c16Formatter{name: "size.Formatter", nValues: len(c16Sizes), nFlags: 4, alphabet: []string{"B", "&nbsp;", "9"},
+			call:     func(buf []byte, vi, flag int) ([]byte, error) { return size.Formatter(buf, c16Sizes[vi], size.Format(flag)) },
+			describe: func(vi, flag int) string { return fmt.Sprintf("size.Formatter %d format=%d", uint64(c16Sizes[vi]), flag) }},
+		c16Formatter{name: "uu.Formatter", nValues: len(c16IDs), nFlags: 2, alphabet: []string{"urn:uuid:", "0123456789abcdef"},
+			call:     func(buf []byte, vi, flag int) ([]byte, error) { return uu.Formatter(buf, c16IDs[vi], uu.Format(flag)) },
+			describe: func(vi, flag int) string { return fmt.Sprintf("uu.Formatter %016x%016x format=%d", c16IDs[vi].Higher, c16IDs[vi].Lower, flag) }},
+	)
 	nSeeded := c.Pick(24, 120)
 	for fi := range fs {
 		f := &fs[fi]
@@ -245,12 +266,12 @@ func runC16(c *rt.Ctx) {
 				for _, p := range prefixes {
 					var spares []int
 					if c.Quick() {
-						spares = []int{0, 1, need - 1, need, need + 1, 64, w.Rng.Intn(65)}
+						spares = []int{0, 1, need - 1, need, need + 1, 64, w.Rng.Intn(65), 65 + w.Rng.Intn(64), 2*need + 3, 128, 1000 + w.Rng.Intn(3000)}
 					} else {
 						for s := 0; s <= 64; s++ {
 							spares = append(spares, s)
 						}
-						spares = append(spares, need-1, need, need+1)
+						spares = append(spares, need-1, need, need+1, 2*need+3, 65, 66, 67, 96, 127, 128, 129, 255, 256, 1024, 4096)
 					}
 					for _, s := range spares {
 						if s < 0 {
